@@ -34,4 +34,5 @@ def with_state_lint(prop, run):
             shared.copy_source_untouched(check, rels)
             shared.no_identity_on_values(check, rels)
             shared.no_store_unless_present(check, rels)
+            shared.residue_identity(check, rels)
     return wrapped
